@@ -28,3 +28,36 @@ Theorem C05_hydrate_creates_nothing :
   h_ops h = rev (resets st) /\ skeleton (apply_ops root (h_ops h)) = skeleton root.
 Proof. exact hydrate_creates_nothing. Qed.
 Print Assumptions C05_hydrate_creates_nothing.
+
+(** PARTIAL (positional form of "state bound to the existing nodes, in order"). Proved: the state
+    hydration returns is [st_of v FirstChild [] 0] — each part of the view is bound to the node at the
+    child position where the printer put it in the expected DOM (separators skipped), an element
+    before its children, list items before their marker. Not proved as a separate statement: that
+    the list [bound st] is strictly increasing in document order and misses only separator comments
+    (this is how [st_of] is laid out; the implementation's bound nodes are compared with it on every
+    generated case through the nodes a full rebuild writes to). *)
+Theorem C05_hydrate_binds_in_order_partial :
+  forall v root st h, wf false v = true -> hydrate_parsed v = Some (root, st, h) ->
+  root = root_of (fst (dom_of v FirstChild)) /\ st = st_of v FirstChild [] 0.
+Proof. exact hydrate_binds_positionally. Qed.
+Print Assumptions C05_hydrate_binds_in_order_partial.
+
+(** PARTIAL (structural form of "behaves like a client-built tree"). Proved, for every view and
+    position: [dom_hyd] — the parsed DOM in which every bound text node holds its view string, i.e.
+    the same nodes as parsed ([C05_hydrated_same_nodes]) with the placeholder resets of
+    [C05_hydrate_creates_nothing] applied — equals the client-built DOM once marker comments are
+    dropped. Not proved: that replaying the logged writes on the parsed tree yields [dom_hyd]
+    (computed by the model through [apply_ops] and compared with the implementation's
+    hydrated-vs-client-built verdict on every generated case), and the rebuild semantics after
+    hydration (compared only: rebuilds of the hydrated state vs the client-built twin). *)
+Theorem C05_hydrated_behaves_as_built_partial :
+  forall v pos, strip_forest (fst (dom_hyd v pos)) = strip_forest (dom_csr v).
+Proof. exact hydrated_as_built. Qed.
+Print Assumptions C05_hydrated_behaves_as_built_partial.
+
+Theorem C05_hydrated_same_nodes :
+  forall v pos,
+    skeleton_forest (fst (dom_hyd v pos)) = skeleton_forest (fst (dom_of v pos)) /\
+    snd (dom_hyd v pos) = snd (dom_of v pos).
+Proof. exact dom_hyd_same_nodes. Qed.
+Print Assumptions C05_hydrated_same_nodes.
